@@ -138,6 +138,9 @@ type ArgumentConditions []Condition
 
 func (a ArgumentConditions) Validate() []string {
 	var problems []string
+	if len(a) == 0 {
+		problems = append(problems, "argument conditions must not be empty")
+	}
 	for _, condition := range a {
 		if condition.Argument < 0 || condition.Argument > 5 {
 			problems = append(problems, fmt.Sprintf("argument must be between 0 and 5 (inclusive), but is %v", condition.Argument))
